@@ -32,6 +32,7 @@ pub async fn run_line(line: &str) -> String {
         "frag_rt" => ops_frag::frag_roundtrip(&args),
         "milu_parse" => ops_milu::milu_parse(&args),
         "milu_eval" => ops_milu::milu_eval(&args),
+        "req_texts" => ops_milu::req_texts(&args),
         "socks_req_read" => ops_codec::socks_req_read(&args).await,
         "socks_req_write" => ops_codec::socks_req_write(&args).await,
         "socks_resp_read" => ops_codec::socks_resp_read(&args).await,
